@@ -185,6 +185,14 @@ Theorem C01_direct_imports_and_package_name_faithful : forall v2 p fuel u0 pkgs 
 Proof. exact imports_and_name_faithful. Qed.
 Print Assumptions C01_direct_imports_and_package_name_faithful.
 
+(* "package path": a package is on record ONCE -- after any load, of any program, from any start
+   universe, no two package records share a path; so "every record filed under that path" in the
+   theorem above is "the record", and a dump of the universe keyed by path loses nothing *)
+Theorem C01_one_record_per_package_path : forall v2 p fuel u0 pkgs w,
+  build_from v2 p fuel u0 pkgs = Some w -> NoDup (map pr_path (w_pkgs w)).
+Proof. exact one_record_per_path. Qed.
+Print Assumptions C01_one_record_per_package_path.
+
 (* non-vacuity: p.T = struct{ A int8; B *p.T } *)
 Definition ex_prog : prog :=
   [(1, (s "p.T", SNamed 1 2 [] [] None));
